@@ -35,13 +35,13 @@ TEXTS = {
          "ALL command sequences over a 14-letter alphabet up to length 4 (quick) / 6 (thorough) and Hypothesis sequences up to length 10 are compared with a protocol model written from the docstrings and a notification grammar; 115 enumerated overlaps of a command with the run thread's transitions (the harness owns the schedule through listener/handler rendezvous) and rapid start/stop alternation must end in a consistent quiescent state, without limbo, with every event executed exactly once. Exhaustive only up to the stated bounds and rendezvous points.",
          "Interleavings are forced only at notification/handler rendezvous points; races whose window contains no such point are not explored (DESIGN.md section 7). Trusts the protocol model in props/c04_lifecycle.py."),
  "C05": ("metamorphic property testing with fault injection: every single fault index for small programs, generated subsets otherwise",
-         "Handlers chosen by the generator (for programs with <= 16 executed events: EVERY single index in turn) raise after performing their actions (eight kinds of exception, plain SimEvents or a user event class that does not wrap failures); under the three non-terminating strategies (set with/without log level, before or after (re-)initialize, changed by handlers), under start, bounded runs and steps, trace, clock, state and pending count must equal the fault-free reference run after every command. Fault enumeration is exhaustive per small program, generated otherwise.",
+         "Handlers chosen by the generator (for programs with <= 16 executed events: EVERY single index in turn) raise after performing their actions (eleven kinds of failure incl. BaseException, keyword arguments that do not fit the handler, a refused command or scheduling request inside the handler; plain SimEvents or a user event class that does not wrap failures); under the three non-terminating strategies (set with/without log level, before or after (re-)initialize, changed by handlers), under start, bounded runs and steps, trace, clock, state and pending count must equal the fault-free reference run after every command. Fault enumeration is exhaustive per small program, generated otherwise.",
          "Faulty handlers raise after their actions (an exception before them would legitimately drop them). Trusts RefSim."),
  "C06": ("differential property testing: replication after a generated prior history vs. the same replication on a brand-new simulator and model",
          "Stochastic programs with seeded streams, the four simulation statistics (one or two event types per producer, producers living for a replication or for the model), initial methods, re-seeded stream objects and initialize attempts from handlers and listeners are run after a generated prior history (initialised only, steps, stop, bounded, ended, fault pause, cleanup, other seeds/settings) and must be indistinguishable (trace, notifications, draws, every statistics getter bit-identical) from a fresh simulator. Exploration by generation.",
          "Differential oracle: a defect that affects fresh and re-initialised runs identically is invisible here (C02/C09-C11 cover those)."),
  "C07": ("differential property testing across interpreter processes and pause points",
-         "Generated stochastic fan-out programs (seeds direct, through a StreamSeedUpdater with user or default fallback, or the default stream of a StreamInformation) are executed in-process in eight variants and, in batches, by child interpreters with different PYTHONHASHSEED, prior activity and pause/bounded drives; digests (events, normalised notifications, draws, deliveries, statistics as hex floats) must be identical and deliveries must follow subscription order. Exploration; wall-clock independence only through pauses and CPU contention.",
+         "Generated stochastic fan-out programs (seeds direct, through a StreamSeedUpdater with user or default fallback, or the default stream of a StreamInformation) are executed in-process in eight to eleven variants (pauses by stop(), by a TIME_CHANGED listener, bounded inclusive / exclusive runs, single steps, fast vs slow listeners, second replication on the same objects, after an abandoned replication) and, in batches, by child interpreters with different PYTHONHASHSEED, prior activity and pause/bounded drives; digests (events, normalised notifications, draws, deliveries, statistics as hex floats) must be identical and deliveries must follow subscription order. Exploration; wall-clock independence only through pauses and CPU contention.",
          "START/STOP notifications depend on pause points by design and are excluded from the digest."),
  "C11": ("differential + exact-oracle property testing of simulation statistics",
          "Generated observation schedules around warm-up and end (three clocks, pauses, optional subscribers, earlier replications, a second model alive in the process, a model class with __len__) are run in the simulator; every getter of the four Sim statistics must be bit-identical to an ordinary statistic fed the observations that the reference interpreter places after the warm-up reset, the persistent's mean must equal the exact (Fraction) time integral, and every published value must equal its getter inside notify. Exploration by generation.",
